@@ -140,6 +140,10 @@ enum Tamper {
     /// attack together with a payload staged there. `doc` = a donor document (another key's, or an
     /// earlier one of this key) with a set of fields stripped, `payload_from` = the donor's payload.
     LegacyDowngrade { path: String, what: String, doc: Vec<u8>, stage: String, payload_from: String },
+    /// "exchanging objects between keys" as a whole: key `to` gets the metadata document of key
+    /// `from` and `from`'s payload under its own prefix (same generation name), its own payload
+    /// object is gone. (`both`: the exchange is done in both directions.)
+    KeyExchange { to: String, from: String, both: bool },
 }
 
 impl Tamper {
@@ -155,6 +159,7 @@ impl Tamper {
             Tamper::MetaEdit { path, what, .. } => format!("metadata edit of {path}: {what}"),
             Tamper::OlderMeta { path, which, .. } => format!("replace {path} by its own earlier document #{which}"),
             Tamper::LegacyDowngrade { path, what, stage, payload_from, .. } => format!("legacy downgrade of {path}: {what}, with the bytes of {payload_from} staged at {stage}"),
+            Tamper::KeyExchange { to, from, both } => format!("key {to} gets the metadata document and the payload of key {from}{}", if *both { " and vice versa" } else { "" }),
         }
     }
     fn apply(&self, s: &Snapshot) -> Snapshot {
@@ -191,6 +196,28 @@ impl Tamper {
                 let w = s[payload_from].clone();
                 t.insert(stage.clone(), w);
             }
+            Tamper::KeyExchange { to, from, both } => {
+                let gen_of = |k: &str| -> Option<String> {
+                    let d: Cv = cbor2::from_slice(s.get(&format!("meta/{k}"))?).ok()?;
+                    match cget(&d, "g") {
+                        Some(Cv::Text(g)) => Some(g.clone()),
+                        _ => None,
+                    }
+                };
+                let mut transplant = |to: &str, from: &str, t: &mut Snapshot| {
+                    if let (Some(gf), Some(gt)) = (gen_of(from), gen_of(to)) {
+                        if let (Some(doc), Some(pay)) = (s.get(&format!("meta/{from}")), s.get(&format!("gen/{from}/{gf}"))) {
+                            t.insert(format!("meta/{to}"), doc.clone());
+                            t.remove(&format!("gen/{to}/{gt}"));
+                            t.insert(format!("gen/{to}/{gf}"), pay.clone());
+                        }
+                    }
+                };
+                transplant(to, from, &mut t);
+                if *both {
+                    transplant(from, to, &mut t);
+                }
+            }
         }
         t
     }
@@ -207,6 +234,11 @@ impl Tamper {
             | Tamper::OlderMeta { path, .. } => vec![path],
             Tamper::Replace { path, .. } => vec![path],
             Tamper::Swap { a, b } => vec![a, b],
+            Tamper::KeyExchange { to, from, both } => {
+                let mut v: Vec<u8> = KEYS.iter().enumerate().filter(|(_, k)| *k == to || (*both && *k == from)).map(|(i, _)| i as u8).collect();
+                v.sort();
+                return v;
+            }
         };
         let mut v: Vec<u8> = paths.iter().filter_map(|p| owner_of(p)).collect();
         v.sort();
@@ -393,6 +425,20 @@ fn enumerate_tampers(s: &Snapshot, chunk: u64, bit_mask: u8, older: &BTreeMap<St
                             stage: format!("data/{loc}"),
                             payload_from: (*from).clone(),
                         });
+                    }
+                }
+            }
+        }
+    }
+    // (6b) whole-key exchanges between every ordered pair of keys (one-directional and mutual)
+    {
+        let present: Vec<&str> = KEYS.iter().cloned().filter(|k| s.contains_key(&format!("meta/{k}"))).collect();
+        for a in &present {
+            for b in &present {
+                if a != b {
+                    out.push(Tamper::KeyExchange { to: a.to_string(), from: b.to_string(), both: false });
+                    if a < b {
+                        out.push(Tamper::KeyExchange { to: a.to_string(), from: b.to_string(), both: true });
                     }
                 }
             }
@@ -846,6 +892,43 @@ pub fn run_case(case: &Case, ctx: &mut CaseCtx) -> Result<(), String> {
                     pairs += 2;
                 }
             }
+            // the same tamper against a WARM instance: a store that has already read every key (its
+            // metadata cache holds the authentic documents) and whose backend is then modified under
+            // it - object-level tampers only (the byte-level families are numerous and change no
+            // pointer the cache could hold). A read that re-resolves a dangling cached pointer must
+            // authenticate what it finds (seeded change C09-3).
+            if !matches!(t, Tamper::Flip { .. } | Tamper::Truncate { .. } | Tamper::Extend { .. } | Tamper::ChunkSwap { .. }) {
+                let m3 = restore(&snap).await;
+                let s3 = enc(case.strict, case.chunk, m3.clone());
+                for k in 0..NKEYS {
+                    if exp.bytes.contains_key(&k) {
+                        if let Ok(g) = s3.get(&key_path(k)).await {
+                            let _ = g.bytes().await;
+                        }
+                        let _ = s3.head(&key_path(k)).await;
+                    }
+                }
+                for (p, b) in &ts {
+                    if snap.get(p) != Some(b) {
+                        m3.put(&Path::from(p.as_str()), PutPayload::from(b.clone())).await.unwrap();
+                    }
+                }
+                for p in snap.keys() {
+                    if !ts.contains_key(p) {
+                        let _ = m3.delete(&Path::from(p.as_str())).await;
+                    }
+                }
+                let what_w = format!("{what}, under a store instance that had read every key before");
+                let (mut d3, mut c3) = (0u64, 0u64);
+                for k in t.affected() {
+                    check_reads(s3.as_ref(), k, &exp, case.chunk, &what_w, &mut d3, &mut c3).await?;
+                }
+                check_listings(s3.as_ref(), &exp, &what_w, &mut d3).await?;
+                ctx.count("tampers_also_applied_under_a_warm_instance", 1);
+                pairs += 17;
+                detected += d3;
+                consumed_ok += c3;
+            }
             if detected > before {
                 ctx.count("tampers_detected_by_some_read", 1);
             } else {
@@ -862,6 +945,7 @@ pub fn run_case(case: &Case, ctx: &mut CaseCtx) -> Result<(), String> {
                 Tamper::MetaEdit { .. } => ctx.count("t_meta_edit", 1),
                 Tamper::OlderMeta { .. } => ctx.count("t_older_meta", 1),
                 Tamper::LegacyDowngrade { .. } => ctx.count("t_legacy_downgrade", 1),
+                Tamper::KeyExchange { .. } => ctx.count("t_key_exchange", 1),
             }
         }
         ctx.count("tampers", tampers.len() as u64);
@@ -888,7 +972,7 @@ pub fn run(r: &mut Runner) {
     let tier = r.tier;
     r.sub(
         "tamper_matrix",
-        "generated write scripts (2-6 of put/multipart/copy/rename over 3 keys, sizes across chunk boundaries, chunk 7/16/64, strict and compatibility metadata_auth); after every script op: no 12-byte plaintext window in any backend object, no nonce shared by two different (chunk, ciphertext) pairs; then EVERY tamper of the family {each byte x selected bit flips (all 8 in thorough) of every payload and metadata object, every truncation length, 3 extensions, deletion, chunk-window swaps, replacement by / swap with every other backend object, structured CBOR edits of every metadata field (drop, null, take from another key's document, every subset of an/at/av/g/m stripped, size+-1, tag list edits, chunk size, re-pointed generation), the key's own earlier documents, and the two-site legacy downgrade (every donor document - another key's or an earlier one - without its generation pointer and without subsets of an/at/av/m, installed for every key together with the donor's payload staged at the key's pre-0.10 payload path data/<key>)} is applied to a copy of the backend and every read path (get, 8 range shapes, get_ranges, head, 3 listings, copy+get, rename+get) through a fresh EncryptedStore must return the written bytes or fail. Non-trivial = at least one read was made to fail by a tamper",
+        "generated write scripts (2-6 of put/multipart/copy/rename over 3 keys, sizes across chunk boundaries, chunk 7/16/64, strict and compatibility metadata_auth); after every script op: no 12-byte plaintext window in any backend object, no nonce shared by two different (chunk, ciphertext) pairs; then EVERY tamper of the family {each byte x selected bit flips (all 8 in thorough) of every payload and metadata object, every truncation length, 3 extensions, deletion, chunk-window swaps, replacement by / swap with every other backend object, structured CBOR edits of every metadata field (drop, null, take from another key's document, every subset of an/at/av/g/m stripped, size+-1, tag list edits, chunk size, re-pointed generation), the key's own earlier documents, whole-key exchanges (metadata document + payload of one key transplanted onto another, one-directional and mutual), and the two-site legacy downgrade (every donor document - another key's or an earlier one - without its generation pointer and without subsets of an/at/av/m, installed for every key together with the donor's payload staged at the key's pre-0.10 payload path data/<key>)} is applied to a copy of the backend and every read path (get, 8 range shapes, get_ranges, head, 3 listings, copy+get, rename+get) through a fresh EncryptedStore - and, for the object-level tampers, also through an instance that had read every key before its backend was modified (warm metadata cache) - must return the written bytes or fail. Non-trivial = at least one read was made to fail by a tamper",
         (400, 12000),
         move || case_strategy(tier),
         run_case,
